@@ -292,6 +292,10 @@ impl Request {
 
         while r.consume("\r\n").is_none() {
             let key_bytes = r.read_while(|b| b != &b':');
+            if key_bytes.is_empty() || !key_bytes.iter().all(|b| b.is_ascii_graphic()) {
+                /* not a field name, e.g. a line without colon running into the next line */
+                return Err(Response::BadRequest())
+            }
             r.consume(": ").ok_or_else(Response::BadRequest)?;
             let value = r.read_while(|b| b != &b'\r');
             if std::str::from_utf8(value).is_err() {
